@@ -250,7 +250,7 @@ def main(tier):
     for v in viols:
         best.setdefault(v.klass, v)
     viols = sorted(best.values(), key=lambda v: v.klass)
-    if links < 100:
+    if links < 100 and not viols:
         raise MachineryError("vacuous: only %d links observed" % links)
     cov = {
         "evaluations": n * 2, "distinct_nontrivial": links,
